@@ -136,6 +136,21 @@ CLAIMED = {
             "fee strings around the bound, negative, malformed, huge) must be accepted iff recipient valid for the type and fee a non-negative integer below amount less 1%.",
             "The connector's main loop (package main: flag parsing, live RPC) is represented by its cursor invariant; the persisted state at a crash is the last Commit. One open finding (counters kept when stopping inside a multi-event block) is recorded and enumeration continues past it.",
             "DESIGN.md §4 C20"),
+    "C15": ("exploration",
+            "round-trip property-based testing (rapid): export -> JSON -> InitGenesis on a fresh instance, per-prefix state comparison plus one differential block",
+            "Whole-bridge histories (pool entries, batches, confirmations by every validator, votes in progress, oracle claims) are cut at their last block boundary; the mhub2 and oracle AppModules export to JSON and a "
+            "fresh instance imports it; every store prefix of both modules and the params are compared, and one further block (claims through every orchestrator, sends by every user) runs on both chains with outcomes compared. "
+            "Twelve prefixes the export does not carry are recorded as open findings (one key per prefix); any other prefix that differs, and any behavioural difference, is a violation.",
+            "auth and bank state is carried over verbatim; SimStaking is identical on both sides.",
+            "DESIGN.md §4 C15"),
+    "C08": ("exploration",
+            "stateful property-based testing (rapid) with the real Hub2 bytecode as judge and an independent acceptance predicate",
+            "Full-loop histories over 1..6 validators: sends, batch requests, power changes, unbonding, partial signing rounds, relayer submissions of signer-set updates and batches to the real contract (deployed "
+            "with the hub's first set, threshold 2863311530) using all / the smallest sufficient / the largest insufficient subset of the confirmations the hub's queries return, external clock, real transferToChain "
+            "deposits, contract logs fed back as claims. The contract must accept iff the confirmers' power in ITS current set exceeds the threshold (and the batch is timely and in nonce order); confirmations my record "
+            "says were accepted must reach the relayer with usable signatures; recipients receive exactly the amounts; after feeding all events back hub and contract agree on event nonce, signer-set nonce and checkpoint, and no executed batch stays pending.",
+            "Hub2 bytecode from solidity/contracts/Hub2.go; log-to-claim mapping hand-ported from the Rust orchestrator; the relayer supplies the contract's true current set and drops signatures that do not verify. Minter's multisig is covered abstractly by C13/C01.",
+            "DESIGN.md §4 C08"),
 }
 
 NOT_YET = "check not built yet in this round (planned in DESIGN.md §4); not claimed until its machinery exists"
